@@ -135,6 +135,42 @@ def decode_dump(ev):
     return {o: {p: cxxrun.decode(v) for p, v in props.items()} for o, props in ev["state"].items()}
 
 
+def regenerated_bindings_are_current(v):
+    """A binding is only current if the code on disk is the code of the CURRENT source: the source is edited in ways that leave the
+    .ui byte-identical (only a binding expression or a handler changes) and generated again over the previous outputs."""
+    import subprocess
+    wd = common.workdir("c02regen")
+    env = dict(os.environ, NO_COLOR="1")
+    head = "import qmluic.QtWidgets\nQWidget {\n    QCheckBox { id: sel }\n    QLineEdit { id: e1 }\n    QLineEdit { id: e2 }\n"
+    revisions = [
+        ("    QLabel { text: e1.text }\n}\n", "    QLabel { text: sel.checked ? e1.text : e2.text }\n}\n"),
+        ("    QLabel { text: e1.text; enabled: sel.checked }\n}\n", "    QLabel { text: e1.text; enabled: !sel.checked }\n}\n"),
+        ("    QLabel { text: e1.text }\n    QPushButton { onClicked: e1.clear() }\n}\n", "    QLabel { text: e1.text }\n    QPushButton { onClicked: e2.clear() }\n}\n"),
+    ]
+    n = 0
+    for k, (v1, v2) in enumerate(revisions):
+        hist, fresh = os.path.join(wd, "h%d" % k), os.path.join(wd, "f%d" % k)
+        os.makedirs(hist)
+        os.makedirs(fresh)
+        cmd = [common.CLI, "generate-ui", "--foreign-types", common.METATYPES, "Form.qml"]
+        open(os.path.join(hist, "Form.qml"), "w").write(head + v1)
+        p1 = subprocess.run(cmd, cwd=hist, capture_output=True, env=env, timeout=120)
+        open(os.path.join(hist, "Form.qml"), "w").write(head + v2)
+        p2 = subprocess.run(cmd, cwd=hist, capture_output=True, env=env, timeout=120)
+        open(os.path.join(fresh, "Form.qml"), "w").write(head + v2)
+        p3 = subprocess.run(cmd, cwd=fresh, capture_output=True, env=env, timeout=120)
+        if p1.returncode or p2.returncode or p3.returncode:
+            v.inconc("regeneration scenario refused")
+            continue
+        n += 1
+        a, b = open(os.path.join(hist, "uisupport_form.h")).read(), open(os.path.join(fresh, "uisupport_form.h")).read()
+        if a != b:
+            v.violation("stale:code-of-an-earlier-revision", "after an edit that changes only dynamic code (the .ui stays byte-identical) and a "
+                        "second run, the support header on disk is not the code of the current source", {"qml_before": head + v1, "qml_now": head + v2,
+                                                                                                          "header_on_disk": a, "header_of_current_source": b})
+    return n
+
+
 def run(tier, seed, replay=None):
     v = common.Verdict("C02", tier, seed)
     rng = common.rng_for(seed, "C02", tier)
@@ -276,6 +312,8 @@ def run(tier, seed, replay=None):
                                         "history_excerpt": [str(s) for s in steps[:6]],
                                         "target_values_after_each_step": [str(st[b.target][b.prop]) for st in states[:6]]})
 
+    n_regen = regenerated_bindings_are_current(v) if not replay else 0
+
     # ---- a binding that reads a non-constant property without notify signal is rejected
     jobs = []
     for k, (prop, src, frag) in enumerate(NEGATIVE + POSITIVE):
@@ -308,7 +346,7 @@ def run(tier, seed, replay=None):
              "the old peer, set an unread property) each keeping every binding defined; after setup() and after every step all "
              "targets are compared with the reference fix point; distinct non-trivial = program texts whose target took >= 3 "
              "different values" % n_steps,
-        samples=samples, documents=len(work), steps_checked=n_steps_checked, steps_by_kind=kinds, model_events=ev_counts,
+        samples=samples, documents=len(work), steps_checked=n_steps_checked, regeneration_scenarios=n_regen, steps_by_kind=kinds, model_events=ev_counts,
         ir_bodies_dependency_checked=n_dep_bodies, ir_pointer_property_reads=n_reads, ir_observe_statements=n_observe,
         unobservable_bindings_rejected=n_neg, floor=30,
     )
